@@ -131,6 +131,122 @@ def expected (rows : Rows) (argv : List String) : Option String :=
     some (ok (rows.map fun r => (if right then r.1 ++ id else id ++ r.1, r.2)))
   | _ => none
 
+/-! ### more commands: trimming, renaming, replacing, sequence cleaning, gap / mutation statistics -/
+
+def bagOf (rows : Rows) : Bag := (addAllStop (newAlign 1) rows).1
+
+/-- the name map file written by `trim name -m` / read by `rename -m`: `old<TAB>new` per line (tab shown as a blank
+by the driver), sorted by the old name -/
+def nameMapText (m : List (String × String)) : String :=
+  String.join ((m.mergeSort fun a b => decide (a.1 ≤ b.1)).map fun p => p.1 ++ " " ++ p.2 ++ "|")
+
+def numGapsFromStart (s : Seq) : Nat := (s.takeWhile (· == GAP)).length
+def numGapsFromEnd (s : Seq) : Nat := (s.reverse.takeWhile (· == GAP)).length
+def numGapsOpenning (s : Seq) : Nat :=
+  (s.foldl (fun (acc : Nat × Byte) c => (if c == GAP && acc.2 != GAP then acc.1 + 1 else acc.1, c)) (0, 62)).1
+
+def expected2 (rows : Rows) (argv : List String) : Option String :=
+  let L := lenOf rows
+  match argv with
+  | "trim" :: "seq" :: fl => do
+    -- cmd/seq.go: TrimSequences(n, fromStart); -n defaults to 1
+    let n ← parseInt? ((opt fl "-n").getD "1")
+    match trimSequences n (flag fl "-s") (bagOf rows) with
+    | some (b, false) => some (ok (pairs b))
+    | _ => some bad
+  | "trim" :: "name" :: fl => do
+    -- cmd/name.go without --out-map: TrimNamesAuto (priority) or TrimNames(n)
+    if flag fl "-a" then some (ok (pairs (trimNamesAuto 1 (bagOf rows)).1)) else
+    let n ← parseInt? ((opt fl "-n").getD "1")
+    let r := trimNames n (bagOf rows)
+    some (if r.2 then bad else ok (pairs r.1))
+  | ["rename", "--clean-names"] => some (ok (pairs (cleanNames (bagOf rows))))
+  | ["replace", "-s", o, "-n", nw] =>
+    -- cmd/replace.go, literal replacement; an alignment whose rows no longer have one length is an error
+    if o.isEmpty then none else
+    let r := replaceBag (bytesOfString o) (bytesOfString nw) (bagOf rows)
+    some (if r.2 then bad else ok (pairs r.1))
+  | "clean" :: "seqs" :: "-c" :: cut :: fl => do
+    let (num, den) ← decFrac cut
+    let ch := (opt fl "--char").getD "GAP"
+    let iN := flag fl "--ignore-n"
+    let r ←
+      if ch == "GAP" || ch == "-" then pure (removeCharacterSeqs (cutoffTest num den) GAP false false iN (bagOf rows))
+      else match bytesOfString ch with
+        | [c] => pure (removeCharacterSeqs (cutoffTest num den) c (flag fl "--ignore-case") (flag fl "--ignore-gaps") iN (bagOf rows))
+        | _ => none
+    match r with
+    | some (b, _) => some (ok (pairs b))
+    | none => none
+  | ["stats", "gaps", "--from-start"] =>
+    some ("rc=0 out=" ++ String.join (rows.map fun r => r.1 ++ " " ++ toString (numGapsFromStart r.2) ++ "|"))
+  | ["stats", "gaps", "--from-end"] =>
+    some ("rc=0 out=" ++ String.join (rows.map fun r => r.1 ++ " " ++ toString (numGapsFromEnd r.2) ++ "|"))
+  | ["stats", "gaps", "--openning"] =>
+    some ("rc=0 out=" ++ String.join (rows.map fun r => r.1 ++ " " ++ toString (numGapsOpenning r.2) ++ "|"))
+  | ["stats", "gaps", "--unique"] =>
+    if L < 0 then none else
+    let u := numGapsUnique rows L
+    some ("rc=0 out=" ++ String.join (rows.zipIdx.map fun (r, i) => r.1 ++ " " ++ toString (u.getD i 0) ++ "|"))
+  | ["stats", "mutations", "--unique"] =>
+    if L < 0 then none else
+    match numMutationsUnique rows L 1 with
+    | some u => some ("rc=0 out=" ++ String.join (rows.zipIdx.map fun (r, i) => r.1 ++ " " ++ toString (u.getD i 0) ++ "|"))
+    | none => none
+  | ["stats", "mutations", "--ref-sequence", name] =>
+    -- a name of the alignment (the generator never gives a file name)
+    match findRow name rows with
+    | none => none
+    | some ref =>
+      match rows.mapM (fun r => (numMutationsVsRef 1 r.2 ref).map fun k => r.1 ++ " " ++ toString k ++ "|") with
+      | some ls => some ("rc=0 out=" ++ String.join ls)
+      | none => some bad
+  | _ => none
+
+/-- commands that read or write further files: `cli_libf <stdin> <files> <argv…>`; the expected answer lists the
+files the command must have written (`files=name=content;;…`, sorted by name) -/
+def expectedF (rows : Rows) (files : List (String × String)) (argv : List String) : Option String :=
+  let fileRows (n : String) : Option Rows := (files.find? (·.1 == n)).map fun f => parseFasta (f.2.splitOn "|")
+  let okF (r : Rows) (fs : String) : String := "rc=0 out=" ++ fasta r ++ " files=" ++ fs
+  let badF : String := "rc=1 out= files="
+  match argv with
+  | "trim" :: "name" :: "-m" :: mf :: fl => do
+    -- the alignment on stdout, the map (old name, new name) in the file
+    let old := rows.map Prod.fst
+    if flag fl "-a" then
+      let b := (trimNamesAuto 1 (bagOf rows)).1
+      some (okF (pairs b) (mf ++ "=" ++ nameMapText (old.zip ((pairs b).map Prod.fst))))
+    else
+      let n ← parseInt? ((opt fl "-n").getD "1")
+      let r := trimNames n (bagOf rows)
+      if r.2 then some badF else some (okF (pairs r.1) (mf ++ "=" ++ nameMapText (old.zip ((pairs r.1).map Prod.fst))))
+  | "rename" :: "-m" :: mf :: fl => do
+    let f ← files.find? (·.1 == mf)
+    let m ← ((f.2.splitOn "|").filter (· != "")).mapM fun l =>
+      match l.splitOn "~" with
+      | [a, b] => some (if flag fl "-r" then (b, a) else (a, b))
+      | _ => none
+    some (okF (pairs (rename m (bagOf rows))) "")
+  | "concat" :: other :: fl => do
+    -- cmd/concat.go: the alignment of stdin, then the one of the file; `-l` writes the coordinates
+    let o ← fileRows other
+    -- a file whose rows do not form an alignment is refused by the reader
+    if (addAllStop (newAlign 1) o).2 || o.isEmpty then some badF else
+    let ob := bagOf o
+    let r := concat (pairs ob) ob.length ob.alphabet (bagOf rows)
+    if r.2 then some badF else
+    let la := (lenOf rows).toNat; let lo := (lenOf o).toNat
+    let log := match opt fl "-l" with
+      | some lf => lf ++ "=" ++ "0 " ++ toString la ++ " stdin|" ++ toString la ++ " " ++ toString (la + lo) ++ " " ++ other ++ "|"
+      | none => ""
+    some (okF (pairs r.1) log)
+  | ["append", other] => do
+    let o ← fileRows other
+    if (addAllStop (newAlign 1) o).2 || o.isEmpty then some badF else
+    let r := appendRows (pairs (bagOf o)) (bagOf rows)
+    some (if r.2 then badF else okF (pairs r.1) "")
+  | _ => none
+
 /-- `compute entropy [-a] [-g]`: numbers are printed with three decimals -/
 def entropyVerdict (rows : Rows) (fl : List String) (impl : String) : Option Ans := do
   let L := lenOf rows
@@ -166,7 +282,16 @@ def handle : Handler := fun op args impl =>
     | none => some ⟨"unmodelled", "na"⟩
   | "cli_lib", stdin :: argv =>
     let rows := parseFasta (stdin.splitOn "|")
-    match expected rows argv with
+    match (expected rows argv).orElse fun _ => expected2 rows argv with
+    | some m => some ⟨m, verdictOf (impl == m) "command-line-differs-from-library-model"⟩
+    | none => some ⟨"unmodelled", "na"⟩
+  | "cli_libf", stdin :: files :: argv =>
+    let rows := parseFasta (stdin.splitOn "|")
+    let fs := if files == "_" then [] else (files.splitOn ";;").filterMap fun f =>
+      match f.splitOn "=" with
+      | n :: rest => some (n, "=".intercalate rest)
+      | _ => none
+    match expectedF rows fs argv with
     | some m => some ⟨m, verdictOf (impl == m) "command-line-differs-from-library-model"⟩
     | none => some ⟨"unmodelled", "na"⟩
   | _, _ => none
